@@ -1036,6 +1036,11 @@ func (zl *zlexer) Next() (lex, bool) {
 
 				l.value = zString
 				l.token = string(str[:stri])
+
+				// A class or type with the comment directly behind it.
+				if !zl.owner && !zl.rrtype {
+					zl.typeOrClass(l)
+				}
 				return *l, true
 			}
 		case '\r':
@@ -1091,6 +1096,11 @@ func (zl *zlexer) Next() (lex, bool) {
 							l.value = zRrtpe
 							l.torc = t
 						}
+					}
+
+					// TYPEnnn at the end of a line (a record without rdata).
+					if !zl.rrtype && !zl.owner && !zl.typeOrClass(l) {
+						return *l, true
 					}
 
 					retL = *l
@@ -1225,6 +1235,11 @@ func (zl *zlexer) Next() (lex, bool) {
 		// Send remainder of str
 		l.value = zString
 		l.token = string(str[:stri])
+
+		// A type as the last token of an input without a final newline.
+		if !zl.rrtype && !zl.owner && !zl.quote && !zl.typeOrClass(l) {
+			return *l, true
+		}
 		retL = *l
 
 		if comi <= 0 {
@@ -1261,6 +1276,48 @@ func (zl *zlexer) Next() (lex, bool) {
 	}
 
 	return lex{value: zEOF}, false
+}
+
+// typeOrClass classifies a token that stands where a class or an RR type may
+// stand, the way the blank case of Next does: l.value and l.torc are set for a
+// mnemonic, TYPEnnn or CLASSnnn. It returns false after turning l into an error.
+func (zl *zlexer) typeOrClass(l *lex) bool {
+	tokenUpper := strings.ToUpper(l.token)
+	if t, ok := StringToType[tokenUpper]; ok {
+		l.value = zRrtpe
+		l.torc = t
+
+		zl.rrtype = true
+	} else if strings.HasPrefix(tokenUpper, "TYPE") {
+		t, ok := typeToInt(l.token)
+		if !ok {
+			l.token = "unknown RR type"
+			l.err = true
+			return false
+		}
+
+		l.value = zRrtpe
+		l.torc = t
+
+		zl.rrtype = true
+	}
+
+	if t, ok := StringToClass[tokenUpper]; ok {
+		l.value = zClass
+		l.torc = t
+	} else if strings.HasPrefix(tokenUpper, "CLASS") {
+		t, ok := classToInt(l.token)
+		if !ok {
+			l.token = "unknown class"
+			l.err = true
+			return false
+		}
+
+		l.value = zClass
+		l.torc = t
+	}
+
+	return true
 }
 
 func (zl *zlexer) Comment() string {
